@@ -121,10 +121,34 @@ func TestVerifReplayHandlers(t *testing.T) {
 				}
 			})
 		}
+		// an intent with content and without a priority (0, which the stores would keep as the lowest one) is refused
+		// before the datastore is touched
+		vrsCall("(*server.Server).TransactionSet", in+",intent without a priority", counts, func() {
+			srv := vrsServer()
+			srv.datastores[name] = &datastore.Datastore{}
+			_, err := srv.TransactionSet(ctx, &sdcpb.TransactionSetRequest{DatastoreName: name, TransactionId: "t", Intents: []*sdcpb.TransactionIntent{{Intent: "i", Priority: 0,
+				Update: []*sdcpb.Update{{Path: &sdcpb.Path{Elem: []*sdcpb.PathElem{{Name: "patterntest"}}}, Value: &sdcpb.TypedValue{Value: &sdcpb.TypedValue_StringVal{StringVal: "hallo 00"}}}}}}})
+			if name != "" && status.Code(err) != codes.InvalidArgument {
+				fmt.Printf("REPLAY-FAIL fn=%s clause=an_intent_with_content_needs_a_priority input=%s,intent i with priority 0 why=answered %v\n", "(*server.Server).TransactionSet", in, err)
+			}
+		})
 		vrsCall("(*server.Server).TransactionConfirm", in, counts, func() { vrsServer().TransactionConfirm(ctx, &sdcpb.TransactionConfirmRequest{DatastoreName: name}) })
 		vrsCall("(*server.Server).TransactionCancel", in, counts, func() { vrsServer().TransactionCancel(ctx, &sdcpb.TransactionCancelRequest{DatastoreName: name}) })
 	}
 	vrsCall("(*server.Server).ListDataStore", "no datastore", counts, func() { vrsServer().ListDataStore(ctx, &sdcpb.ListDataStoreRequest{}) })
+	// Subscribe: whatever the sample interval, what is handed on fits a time.Duration and a ticker takes it
+	for _, iv := range []uint64{0, 1, uint64(1e9), 1 << 62, 1<<63 - 1, 1 << 63, 1<<64 - 1} {
+		in := fmt.Sprintf("name=nosuch,sample_interval=%d", iv)
+		vrsCall("(*server.Server).Subscribe", in, counts, func() {
+			req := &sdcpb.SubscribeRequest{Name: "nosuch", Subscription: []*sdcpb.Subscription{{SampleInterval: iv}, {SampleInterval: iv}}}
+			vrsServer().Subscribe(req, nil)
+			for _, sub := range req.GetSubscription() {
+				if got := sub.GetSampleInterval(); got > 1<<63-1 || got < uint64(1e9) {
+					fmt.Printf("REPLAY-FAIL fn=%s clause=panic input=%s why=the interval handed to the datastore is %d: as a time.Duration it is not positive, the ticker of the subscription panics in its own goroutine\n", "(*server.Server).Subscribe", in, got)
+				}
+			}
+		})
+	}
 	for fn, n := range counts {
 		fmt.Printf("REPLAY-CASES fn=%s n=%d\n", fn, n)
 	}
